@@ -2,8 +2,8 @@
 # FakePM, CTRLInterfaceTRX, DATAInterface, CLCKGen.send_clck_ind) in-process, wired by the
 # real Application.append_trx / append_child_trx, with the environment replaced from outside:
 #   * udp_link.socket  -> in-memory sockets (record every sendto, serve injected datagrams)
-#   * clck_gen.threading.Thread -> inert thread object (start()/stop() logic runs, no OS thread);
-#     ticks are delivered by calling the real CLCKGen.send_clck_ind()
+#   * clck_gen.threading -> the REAL CLCKGen._worker loop runs in its own OS thread, in lock step with the harness
+#     (StepEvent/StepThread below): op `T` releases exactly one iteration of the loop; clck_gen.time -> constant clock
 #   * fake_trx.random.randint / fake_pm.randint -> deterministic draw function shared with the model
 #   * ctrl_if.time.sleep -> no-op
 # Line protocol (one whole history per line, stateless):
@@ -56,12 +56,81 @@ fake_socket_mod = types.SimpleNamespace(socket=FakeSocket, AF_INET=2, SOCK_DGRAM
 udp_link.socket = fake_socket_mod
 
 class FakeThread:
+    """inert thread (USE_WORKER = False): start()/stop() logic runs, no OS thread; ticks = direct send_clck_ind() calls"""
     def __init__(self, target=None): self.alive = False; self.daemon = False
     def start(self): self.alive = True
     def join(self): self.alive = False
     def is_alive(self): return self.alive
 
-clck_gen.threading = types.SimpleNamespace(Thread=FakeThread, Event=threading.Event)
+# USE_WORKER = True: the REAL CLCKGen._worker loop runs in an OS thread of its own, in lock step with the harness:
+# the generator's breaker (threading.Event inside clck_gen) is replaced by StepEvent, whose wait() parks the worker
+# until the harness releases exactly one iteration (op `T`) or stop() sets it.  Harness and worker never run at the
+# same time, so a history is deterministic; what the worker caches across iterations is what the real thread caches.
+USE_WORKER = True
+
+class StepEvent:
+    def __init__(self):
+        self.flag = False
+        self.go = threading.Semaphore(0)
+        self.parked = threading.Semaphore(0)
+    def wait(self, timeout=None):
+        self.parked.release()
+        self.go.acquire()
+        return self.flag
+    def set(self):
+        self.flag = True
+        self.go.release()
+    def clear(self): self.flag = False
+    def is_set(self): return self.flag
+
+class StepThread:
+    def __init__(self, target=None):
+        self.daemon = False
+        self.exc = None
+        self.target = target
+        self.breaker = target.__self__._breaker
+        self.t = threading.Thread(target=self._run, daemon=True)
+    def _run(self):
+        try:
+            self.target()
+        except BaseException as e:      # the clock thread dies: remembered, reported by the op that caused it
+            self.exc = e
+        finally:
+            self.parked_or_dead()
+    def parked_or_dead(self):
+        self.breaker.parked.release()
+    def start(self):
+        self.t.start()
+        self.breaker.parked.acquire()   # until the worker waits for its first tick (or is dead)
+    def join(self):
+        self.t.join()
+        # the dying worker released `parked` once more: consume it
+        self.breaker.parked.acquire()
+    def is_alive(self): return self.t.is_alive()
+
+def _mk_thread(target=None):
+    return StepThread(target) if USE_WORKER else FakeThread(target)
+
+def _mk_event():
+    return StepEvent() if USE_WORKER else threading.Event()
+
+def worker_tick(gen):
+    """one iteration of the real _worker loop: wait() returns False, send_clck_ind(), next wait()"""
+    th = gen._thread
+    br = gen._breaker
+    br.go.release()
+    br.parked.acquire()
+    if th.exc is not None:
+        # the clock thread died in this tick (what threading's excepthook would print): report it and go on with a
+        # fresh worker on the same counter, as the direct-call harness did (clck_src is not incremented by a failed tick)
+        exc, th.exc = th.exc, None
+        th.t.join()
+        gen._thread = StepThread(gen._worker)
+        gen._thread.start()
+        raise exc
+
+clck_gen.threading = types.SimpleNamespace(Thread=_mk_thread, Event=_mk_event)
+clck_gen.time = types.SimpleNamespace(monotonic_ns=lambda: 0)
 ctrl_if.time = types.SimpleNamespace(sleep=lambda s: None)
 
 class Draw:
@@ -228,7 +297,10 @@ def run_line(line):
                 trx.recv_data_msg()
             elif t[0] == "T":
                 if app.clck_gen.running:
-                    app.clck_gen.send_clck_ind()
+                    if USE_WORKER:
+                        worker_tick(app.clck_gen)
+                    else:
+                        app.clck_gen.send_clck_ind()
             elif t[0] == "J":
                 if app.clck_gen.running:
                     app.clck_gen.clck_src = int(t[1])
@@ -238,7 +310,10 @@ def run_line(line):
         except Exception as e:
             exc = e
         res.append(obs(exc))
-    return " ; ".join(res) + " | " + ports(app) + " | " + state(app)
+    out = " ; ".join(res) + " | " + ports(app) + " | " + state(app)
+    if USE_WORKER and app.clck_gen._thread is not None:
+        app.clck_gen.stop()           # do not leave a parked OS thread behind
+    return out
 
 def main():
     for line in sys.stdin:
